@@ -556,31 +556,43 @@ func commentDescription(src protoreflect.Descriptor) string {
 }
 
 func buildComment(sourceLocation protoreflect.SourceLocation, fallback string) string {
-	allComments := make([]string, 0)
-	if sourceLocation.LeadingComments != "" {
-		allComments = append(allComments, strings.Split(sourceLocation.LeadingComments, "\n")...)
-	}
-	if sourceLocation.TrailingComments != "" {
-		allComments = append(allComments, strings.Split(sourceLocation.TrailingComments, "\n")...)
-	}
-
-	// Trim leading whitespace
-	commentsOut := make([]string, 0, len(allComments))
-	for _, comment := range allComments {
-		comment = strings.TrimSpace(comment)
-		if comment == "" {
-			continue
-		}
-		if strings.HasPrefix(comment, "#") {
-			continue
-		}
-		commentsOut = append(commentsOut, comment)
-	}
+	commentsOut := make([]string, 0)
+	commentsOut = appendCommentLines(commentsOut, sourceLocation.LeadingComments)
+	commentsOut = appendCommentLines(commentsOut, sourceLocation.TrailingComments)
 
 	if len(commentsOut) <= 0 {
 		return fallback
 	}
 	return strings.Join(commentsOut, "\n")
+}
+
+// appendCommentLines adds the lines of one comment block, trimmed. Lines which
+// begin with # are skipped. Blank lines between two lines of the block separate
+// paragraphs and are kept; blank lines at either end of the block are dropped.
+func appendCommentLines(out []string, block string) []string {
+	if block == "" {
+		return out
+	}
+	blank := 0
+	first := true
+	for _, comment := range strings.Split(block, "\n") {
+		comment = strings.TrimSpace(comment)
+		if comment == "" {
+			if !first {
+				blank++
+			}
+			continue
+		}
+		if strings.HasPrefix(comment, "#") {
+			continue
+		}
+		for ; blank > 0; blank-- {
+			out = append(out, "")
+		}
+		first = false
+		out = append(out, comment)
+	}
+	return out
 }
 
 type protoFieldExtensions struct {
